@@ -200,31 +200,53 @@ Section Convert.
   Inductive action :=
   | ACopy (i : nat)
     (* target column = source column [i] *)
-  | AFill (i k d : nat) (z : option V).
+  | AFill (i k d : nat) (z : option V)
     (* missing target column below a shared group whose first leaf column is
        [i] and whose levels are (k, d): one entry per entry of column [i] with
        r <= k; [z] = the zero value when every node from that group down to
        the leaf is required *)
+  | AHold (z : option V).
+    (* missing target column below a shared group at levels (0, 0) that has no
+       direct leaf child: no source column is read, one entry per row at
+       levels (0, 0) (the placeholder the library always produced there) *)
 
   Definition shift (o : nat) (a : action) : action :=
     match a with
     | ACopy i => ACopy (o + i)
     | AFill i k d z => AFill (o + i) k d z
+    | AHold z => AHold z
     end.
 
   Definition act_index (a : action) : nat :=
-    match a with ACopy i => i | AFill i _ _ _ => i end.
+    match a with ACopy i => i | AFill i _ _ _ => i | AHold _ => 0 end.
+
+  Definition is_hold (a : action) : bool :=
+    match a with AHold _ => true | _ => false end.
+
+  Fixpoint has_leaf_child (fs : nfields) : bool :=
+    match fs with
+    | NNil => false
+    | NCons _ _ (NLeaf _) _ => true
+    | NCons _ _ (NGroup _) fs' => has_leaf_child fs'
+    end.
+
+  (* the placeholder case of Convert *)
+  Definition holds (sfs : nfields) (k d : nat) : bool :=
+    Nat.eqb k 0 && Nat.eqb d 0 && negb (has_leaf_child sfs).
+
+  Definition fill_action (hold : bool) (k d : nat) (z : option V) : action :=
+    if hold then AHold z else AFill 0 k d z.
 
   (* the columns of an added subtree *)
-  Fixpoint fill_plan (t : nschema) (k d : nat) (allreq : bool) : list action :=
+  Fixpoint fill_plan (t : nschema) (hold : bool) (k d : nat) (allreq : bool) : list action :=
     match t with
-    | NLeaf ty => [AFill 0 k d (if allreq then Some (zero ty) else None)]
-    | NGroup fs => fill_plan_fields fs k d allreq
+    | NLeaf ty => [fill_action hold k d (if allreq then Some (zero ty) else None)]
+    | NGroup fs => fill_plan_fields fs hold k d allreq
     end
-  with fill_plan_fields (fs : nfields) (k d : nat) (allreq : bool) : list action :=
+  with fill_plan_fields (fs : nfields) (hold : bool) (k d : nat) (allreq : bool) : list action :=
     match fs with
     | NNil => []
-    | NCons _ r s fs' => fill_plan s k d (allreq && is_req r) ++ fill_plan_fields fs' k d allreq
+    | NCons _ r s fs' => fill_plan s hold k d (allreq && is_req r) ++ fill_plan_fields fs' hold k d allreq
     end.
 
   (** [plan src tgt k d]: one action per target leaf, in target column order;
@@ -249,9 +271,9 @@ Section Convert.
              match s, t with
              | NLeaf _, NLeaf _ | NGroup _, NGroup _ =>
                  map (shift off) (plan s t (rep_k r k) (rep_d r d))
-             | _, _ => fill_plan t k d (is_req r)
+             | _, _ => fill_plan t (holds sfs k d) k d (is_req r)
              end
-         | None => fill_plan t k d (is_req r)
+         | None => fill_plan t (holds sfs k d) k d (is_req r)
          end) ++ plan_fields sfs tfs' k d
     end.
 
@@ -270,6 +292,7 @@ Section Convert.
     match a with
     | ACopy i => nth i cols []
     | AFill i k d z => filter_map (fill_entry k d z) (nth i cols [])
+    | AHold z => [(z, 0, 0)]
     end.
 
   Definition conv (acts : list action) (cols : list column) : list column :=
@@ -484,6 +507,7 @@ End Convert.
 
 Arguments ACopy {V}.
 Arguments AFill {V}.
+Arguments AHold {V}.
 Arguments PCopy {V}.
 Arguments PSibNull {V}.
 Arguments PSibZero {V}.
